@@ -18,17 +18,28 @@ Definition pgroup (T : ptable) (pc : string -> pres (list (Q * frag))) (s : stri
       POk (regroup c inner) r4
   end.
 
-Fixpoint more (pg : string -> pres (list (Q * frag))) (k : nat) (acc : list (Q * frag)) (r : string)
-  : pres (list (Q * frag)) :=
+Definition more (pg : string -> pres (list (Q * frag))) :=
+  fix more (k : nat) (acc : list (Q * frag)) (r : string) : pres (list (Q * frag)) :=
   match k with
   | O => POk acc r
   | S k' =>
       match pg (p_sep r) with
-      | POk g' r' => more pg k' (acc ++ g')%list r'
+      | POk g' r' => more k' (acc ++ g')%list r'
       | PFail => POk acc r
       | PAbort x => PAbort x
       end
   end.
+
+Lemma more_0 : forall pg acc r, more pg O acc r = POk acc r.
+Proof. reflexivity. Qed.
+Lemma more_S : forall pg k acc r,
+  more pg (S k) acc r =
+  match pg (p_sep r) with
+  | POk g' r' => more pg k (acc ++ g')%list r'
+  | PFail => POk acc r
+  | PAbort x => PAbort x
+  end.
+Proof. reflexivity. Qed.
 
 Lemma p_composite_S : forall T f s,
   p_composite T (S f) s =
@@ -231,5 +242,378 @@ Section Accept.
     rewrite (elems_ok e es _ rest); [reflexivity| |exact Hes|exact Hr].
     simpl in Hes. apply andb_prop in Hes. destruct Hes as [He Hes].
     pose proof (r_elems_len es Hes). rewrite slen_app, r_elems_cons, slen_app. lia.
+  Qed.
+
+  Lemma wf_imp_inv : forall c es, wf_group T (GImp c es) = true ->
+    wf_ctext c = true /\ exists e es', es = e :: es' /\ wf_elem T e = true /\ forallb (wf_elem T) es' = true.
+  Proof.
+    intros c es H. change (wf_group T (GImp c es)) with
+      (wf_ctext c && negb (match es with [] => true | _ => false end) && forallb (wf_elem T) es)%bool in H.
+    apply andb_prop in H. destruct H as [H Hes]. apply andb_prop in H. destruct H as [Hc Hne].
+    split; [exact Hc|]. destruct es as [|e es]; [discriminate|]. exists e, es.
+    simpl in Hes. apply andb_prop in Hes. destruct Hes as [He Hes]. auto.
+  Qed.
+
+  (* ---------------------------------------------------------------- first characters *)
+  Lemma ctext_gstart : forall c X, wf_ctext c = true -> hds gstart X = true -> hds gstart (r_ctext c ++ X) = true.
+  Proof.
+    intros [t|] X H HX; [|exact HX]. simpl in H. destruct (count_text_hd t H) as (x & r & -> & Hx).
+    simpl. apply dod_gstart. exact Hx.
+  Qed.
+
+  Lemma group_hd : forall g X, wf_group T g = true -> hds gstart (r_group g ++ X) = true.
+  Proof.
+    intros [c es|l inner r c] X H; [|reflexivity].
+    simpl in H. apply andb_prop in H. destruct H as [H Hes]. apply andb_prop in H. destruct H as [Hc Hne].
+    destruct es as [|e es]; [discriminate|]. rewrite r_group_imp. fold (r_elems (e :: es)).
+    rewrite sapp_assoc. apply ctext_gstart; [exact Hc|]. rewrite r_elems_cons, sapp_assoc.
+    simpl in Hes. apply andb_prop in Hes. destruct Hes as [He _].
+    pose proof (elem_hd e (r_elems es ++ X) He) as Hu. destruct (r_elem e ++ r_elems es ++ X); [discriminate|].
+    simpl in *. apply upper_gstart. exact Hu.
+  Qed.
+
+  (* ---------------------------------------------------------------- separators *)
+  Lemma p_sep_ok : forall s X, wf_sep s = true -> hds gstart X = true -> p_sep (r_sep s ++ X) = X.
+  Proof.
+    intros [a pl b] X H HX. unfold wf_sep in H. cbn [sp1 sp2] in H. apply andb_prop in H. destruct H as [Ha Hb].
+    pose proof (hds_nw _ gstart_nonws _ HX) as Hw.
+    unfold r_sep. cbn [sp1 sp2 plus]. rewrite !sapp_assoc. unfold p_sep. destruct pl.
+    - change ("+" ++ b ++ X) with (String "+" (b ++ X)).
+      rewrite (lit_blanks "+" a (b ++ X) eq_refl Ha). apply skip_ws_blanks; assumption.
+    - change ("" ++ b ++ X) with (b ++ X).
+      assert (E : skip_ws (a ++ b ++ X) = X).
+      { rewrite skip_ws_app by (apply (all_chars_impl _ _ blank_pws); exact Ha). apply skip_ws_blanks; assumption. }
+      unfold lit. rewrite E. destruct X as [|x r]; [discriminate|]. simpl in HX.
+      pose proof (gstart_notplus x HX) as Hp. apply negb_true in Hp. rewrite Hp. reflexivity.
+  Qed.
+
+  Definition sepstart (c : ascii) : bool := (is_blank c || Ascii.eqb c "+")%bool.
+  Lemma sepstart_nf_imp : forall c, sepstart c = true -> nf_imp c = true. Proof. char_fact. Qed.
+
+  Lemma sep_hd : forall s X, wf_sep s = true -> sep_empty s = false -> hds sepstart (r_sep s ++ X) = true.
+  Proof.
+    intros [a pl b] X H He. unfold wf_sep in H. cbn [sp1 sp2] in H. apply andb_prop in H. destruct H as [Ha Hb].
+    unfold sep_empty, r_sep in *. cbn [sp1 sp2 plus] in *.
+    destruct a as [|x a].
+    - destruct pl; [reflexivity|]. destruct b as [|y b]; [discriminate|].
+      simpl in Hb. apply andb_prop in Hb. destruct Hb as [Hy _]. simpl. unfold sepstart. rewrite Hy. reflexivity.
+    - simpl in Ha. apply andb_prop in Ha. destruct Ha as [Hx _]. simpl. unfold sepstart. rewrite Hx. reflexivity.
+  Qed.
+
+  (* ---------------------------------------------------------------- what may follow a group *)
+  Definition group_follow (g : group) (rest : string) : bool :=
+    match g with GImp _ _ => hdp nf_imp rest | GExp _ _ _ _ => hdp nf_count rest end.
+
+  Lemma group_follow_imp : forall g rest, hdp nf_imp rest = true -> group_follow g rest = true.
+  Proof. intros [c es|l i r c] rest H; simpl; [exact H|exact (hdp_impl _ _ nf_imp_count _ H)]. Qed.
+
+  Lemma lparen_nf_imp : nf_imp "(" = true. Proof. reflexivity. Qed.
+
+  Lemma follow_next : forall prev s g X, wf_sep s = true -> join_ok (is_imp prev) s g = true ->
+    wf_group T g = true -> group_follow prev (r_sep s ++ r_group g ++ X) = true.
+  Proof.
+    intros prev s g X Hs Hj Hg. destruct (sep_empty s) eqn:Ee.
+    - unfold join_ok in Hj. rewrite Ee in Hj. simpl in Hj. unfold sep_empty in Ee. apply String.eqb_eq in Ee.
+      rewrite Ee. change ("" ++ r_group g ++ X) with (r_group g ++ X).
+      destruct g as [[t|] es|l i r c]; [discriminate| |].
+      + destruct prev as [c' es'|l' i' r' c']; [discriminate|]. simpl.
+        destruct (wf_imp_inv _ _ Hg) as (_ & e & es' & -> & He & _). rename es' into es.
+        fold (r_elems (e :: es)). rewrite r_elems_cons, sapp_assoc. exact (hds_hdp _ _ upper_nf_count _ (elem_hd e _ He)).
+      + apply group_follow_imp. reflexivity.
+    - apply group_follow_imp. exact (hds_hdp _ _ sepstart_nf_imp _ (sep_hd s _ Hs Ee)).
+  Qed.
+
+  Lemma tail_follow : forall prev l rest, chain_ok (is_imp prev) l = true ->
+    forallb (fun p => wf_group T (snd p)) l = true -> hdp nf_imp rest = true ->
+    group_follow prev (r_tail l ++ rest) = true.
+  Proof.
+    intros prev [|[s g] l] rest Hc Hw Hr.
+    - simpl. apply group_follow_imp. exact Hr.
+    - simpl in Hc, Hw. apply andb_prop in Hc. destruct Hc as [Hc _]. apply andb_prop in Hc. destruct Hc as [Hs Hj].
+      apply andb_prop in Hw. destruct Hw as [Hg _]. cbn [r_tail]. rewrite !sapp_assoc.
+      apply follow_next; assumption.
+  Qed.
+
+  (* ---------------------------------------------------------------- failing groups (the loop ends) *)
+  Lemma p_implicit_fail : forall s, not_white s = true -> hdp nf_count s = true -> hdp notupper s = true ->
+    p_implicit T s = PFail.
+  Proof.
+    intros s Hw Hc Hu. unfold p_implicit. rewrite (p_count_none s Hc). cbn [pbind].
+    unfold p_elements. rewrite (p_element_fail s Hw Hu). reflexivity.
+  Qed.
+
+  Definition not_lparen (c : ascii) : bool := negb (Ascii.eqb "(" c).
+
+  Lemma pgroup_fail : forall pc s, not_white s = true -> hdp nf_count s = true -> hdp notupper s = true ->
+    hdp not_lparen s = true -> pgroup T pc s = PFail.
+  Proof.
+    intros pc s Hw Hc Hu Hp. unfold pgroup. rewrite (p_implicit_fail s Hw Hc Hu).
+    rewrite (lit_other _ s Hw Hp). reflexivity.
+  Qed.
+
+  (* the composite loop stops at rest *)
+  Definition stops (rest : string) : Prop :=
+    hdp nf_imp rest = true /\ forall f, pgroup T (p_composite T f) (p_sep rest) = PFail.
+
+  Definition closer (c : ascii) : bool := (Ascii.eqb c ")" || Ascii.eqb c "@")%bool.
+  (* after optional white space: end of text, ')' or '@' *)
+  Definition cf (rest : string) : bool := hdp closer (skip_ws rest).
+
+  Lemma closer_nf_imp : forall c, closer c = true -> nf_imp c = true. Proof. char_fact. Qed.
+  Lemma closer_nf_count : forall c, closer c = true -> nf_count c = true. Proof. char_fact. Qed.
+  Lemma closer_notupper : forall c, closer c = true -> notupper c = true. Proof. char_fact. Qed.
+  Lemma closer_not_lparen : forall c, closer c = true -> not_lparen c = true. Proof. char_fact. Qed.
+  Lemma closer_notplus : forall c, closer c = true -> negb (Ascii.eqb "+" c) = true. Proof. char_fact. Qed.
+
+  Lemma skip_ws_nw : forall s, not_white (skip_ws s) = true.
+  Proof.
+    induction s as [|c s IH]; [reflexivity|]. simpl. destruct (is_pws c) eqn:E; [exact IH|].
+    simpl. rewrite E. reflexivity.
+  Qed.
+
+  Lemma skip_ws_idem : forall s, skip_ws (skip_ws s) = skip_ws s.
+  Proof. intro s. apply skip_ws_id. apply skip_ws_nw. Qed.
+
+  Lemma cf_stops : forall rest, cf rest = true -> stops rest.
+  Proof.
+    intros rest H. unfold cf in H. split.
+    - destruct rest as [|c r]; [reflexivity|]. simpl. simpl in H. destruct (is_pws c) eqn:E.
+      + apply pws_nf_imp. exact E.
+      + simpl in H. apply closer_nf_imp. exact H.
+    - intro f.
+      assert (E : p_sep rest = skip_ws rest).
+      { unfold p_sep, lit. destruct (skip_ws rest) as [|c r] eqn:Es; [reflexivity|]. simpl in H.
+        pose proof (closer_notplus c H) as Hp. apply negb_true in Hp. rewrite Hp. reflexivity. }
+      rewrite E. apply pgroup_fail.
+      + apply skip_ws_nw.
+      + exact (hdp_impl _ _ closer_nf_count _ H).
+      + exact (hdp_impl _ _ closer_notupper _ H).
+      + exact (hdp_impl _ _ closer_not_lparen _ H).
+  Qed.
+
+  (* ---------------------------------------------------------------- the loop over the groups of a compound *)
+  Definition acc_ok (g : group) : Prop :=
+    forall f rest, (gdepth g <= f)%nat -> wf_group T g = true -> group_follow g rest = true ->
+    pgroup T (p_composite T f) (r_group g ++ rest) = POk (v_group T g) rest.
+
+  Lemma cdepth_cons : forall s g l, cdepth ((s, g) :: l) = Nat.max (gdepth g) (cdepth l).
+  Proof. reflexivity. Qed.
+
+  Lemma more_ok : forall f l, Forall (fun p => acc_ok (snd p)) l ->
+    forall prev k acc rest,
+    (cdepth l <= f)%nat -> forallb (fun p => wf_group T (snd p)) l = true ->
+    chain_ok (is_imp prev) l = true -> (length l <= k)%nat -> stops rest ->
+    more (pgroup T (p_composite T f)) k acc (r_tail l ++ rest) = POk (acc ++ v_comp T l)%list rest.
+  Proof.
+    intros f. induction l as [|[s g] l IH]; intros HP prev k acc rest Hd Hw Hc Hk Hst.
+    - simpl. rewrite app_nil_r. destruct k as [|k]; [reflexivity|]. rewrite more_S.
+      destruct Hst as [_ Hst]. rewrite Hst. reflexivity.
+    - destruct k as [|k]; [simpl in Hk; lia|]. simpl in Hk.
+      inversion HP as [|? ? Pg Pl]; subst. simpl in Pg.
+      rewrite cdepth_cons in Hd.
+      simpl in Hw. apply andb_prop in Hw. destruct Hw as [Hg Hl].
+      simpl in Hc. apply andb_prop in Hc. destruct Hc as [Hc Hcl]. apply andb_prop in Hc. destruct Hc as [Hs Hj].
+      cbn [r_tail]. rewrite !sapp_assoc. rewrite more_S.
+      rewrite (p_sep_ok s _ Hs (group_hd g _ Hg)).
+      rewrite (Pg f (r_tail l ++ rest)); [| lia | exact Hg | apply tail_follow; [exact Hcl|exact Hl|apply Hst] ].
+      rewrite (IH Pl g k (acc ++ v_group T g)%list rest); [| lia | exact Hl | exact Hcl | lia | exact Hst].
+      unfold v_comp. simpl flat_map. rewrite app_assoc. reflexivity.
+  Qed.
+
+  Lemma r_tail_len : forall l, forallb (fun p => wf_group T (snd p)) l = true ->
+    (length l <= String.length (r_tail l))%nat.
+  Proof.
+    induction l as [|[s g] l IH]; intro H; [simpl; lia|]. simpl in H. apply andb_prop in H. destruct H as [Hg Hl].
+    cbn [r_tail]. rewrite !slen_app. specialize (IH Hl).
+    pose proof (hds_len _ _ (group_hd g "" Hg)) as L. rewrite sapp_nil_r in L. simpl. lia.
+  Qed.
+
+  Lemma comp_ok_from : forall l f rest, Forall (fun p => acc_ok (snd p)) l ->
+    (cdepth l <= f)%nat -> wf_comp T l = true -> stops rest ->
+    p_composite T (S f) (r_comp l ++ rest) = POk (v_comp T l) rest.
+  Proof.
+    intros l f rest HP Hd H Hst. unfold wf_comp in H. apply andb_prop in H. destruct H as [Hsh Hw].
+    destruct l as [|[s g] l]; [discriminate|]. simpl in Hsh.
+    inversion HP as [|? ? Pg Pl]; subst. simpl in Pg. rewrite cdepth_cons in Hd.
+    simpl in Hw. apply andb_prop in Hw. destruct Hw as [Hg Hl].
+    rewrite r_comp_cons, sapp_assoc, p_composite_S.
+    rewrite (Pg f (r_tail l ++ rest)); [| lia | exact Hg | apply tail_follow; [exact Hsh|exact Hl|apply Hst] ].
+    cbn [pbind].
+    rewrite (more_ok f l Pl g _ (v_group T g) rest); [reflexivity| lia | exact Hl | exact Hsh | | exact Hst].
+    pose proof (r_tail_len l Hl). rewrite slen_app. lia.
+  Qed.
+
+  (* ---------------------------------------------------------------- explicit groups, by induction on the tree *)
+  Lemma comp_hd : forall l X, wf_comp T l = true -> hds gstart (r_comp l ++ X) = true.
+  Proof.
+    intros [|[s g] l] X H; unfold wf_comp in H; apply andb_prop in H; destruct H as [Hsh Hw]; [discriminate|].
+    simpl in Hw. apply andb_prop in Hw. destruct Hw as [Hg _]. rewrite r_comp_cons, sapp_assoc.
+    apply group_hd. exact Hg.
+  Qed.
+
+  Lemma rparen_stops : forall r Y, all_chars is_blank r = true -> stops (r ++ String ")" Y).
+  Proof.
+    intros r Y Hr. apply cf_stops. unfold cf. rewrite skip_ws_blanks by (exact Hr || reflexivity). reflexivity.
+  Qed.
+
+  Theorem group_accept : forall g, acc_ok g.
+  Proof.
+    induction g as [c es|l inner r c IH] using group_ind'; intros f rest Hd H Hf.
+    - unfold pgroup. simpl in Hf. rewrite (implicit_ok c es rest H Hf). reflexivity.
+    - simpl in Hf. cbn [gdepth] in Hd. fold (cdepth inner) in Hd.
+      destruct f as [|f]; [lia|].
+      simpl in H. apply andb_prop in H. destruct H as [H Hall]. apply andb_prop in H. destruct H as [H Hsh].
+      apply andb_prop in H. destruct H as [H Hc]. apply andb_prop in H. destruct H as [Hl Hr].
+      assert (Hwc : wf_comp T inner = true) by (unfold wf_comp; rewrite Hsh, Hall; reflexivity).
+      rewrite r_group_exp. rewrite !sapp_assoc.
+      change ("(" ++ l ++ r_comp inner ++ r ++ ")" ++ r_ctext c ++ rest)
+        with (String "(" (l ++ r_comp inner ++ r ++ String ")" (r_ctext c ++ rest))).
+      unfold pgroup. rewrite p_implicit_fail by reflexivity.
+      rewrite lit_here by reflexivity. cbn [pbind].
+      rewrite skip_ws_blanks by (exact Hl || exact (hds_nw _ gstart_nonws _ (comp_hd inner _ Hwc))).
+      rewrite (comp_ok_from inner f _ IH); [| lia | exact Hwc | apply rparen_stops; exact Hr].
+      cbn [pbind]. rewrite (lit_blanks ")" r _ eq_refl Hr). cbn [pbind].
+      rewrite (p_count_ctext c rest Hc Hf). cbn [pbind]. reflexivity.
+  Qed.
+
+  Theorem comp_accept : forall l f rest, (cdepth l <= f)%nat -> wf_comp T l = true -> stops rest ->
+    p_composite T (S f) (r_comp l ++ rest) = POk (v_comp T l) rest.
+  Proof.
+    intros l f rest Hd H Hst. apply comp_ok_from; try assumption.
+    apply Forall_forall. intros p _. apply group_accept.
+  Qed.
+
+  (* ---------------------------------------------------------------- fuel: nesting depth is below the text length *)
+  Lemma cdepth_tail : forall l, Forall (fun p => (gdepth (snd p) <= String.length (r_group (snd p)))%nat) l ->
+    (cdepth l <= String.length (r_tail l))%nat.
+  Proof.
+    induction l as [|[s g] l IH]; intro H; [simpl; lia|]. inversion H as [|? ? Hg Hl]; subst. simpl in Hg.
+    rewrite cdepth_cons. cbn [r_tail]. rewrite !slen_app. specialize (IH Hl). lia.
+  Qed.
+
+  Lemma cdepth_comp : forall l, Forall (fun p => (gdepth (snd p) <= String.length (r_group (snd p)))%nat) l ->
+    (cdepth l <= String.length (r_comp l))%nat.
+  Proof.
+    intros [|[s g] l] H; [simpl; lia|]. inversion H as [|? ? Hg Hl]; subst. simpl in Hg.
+    rewrite cdepth_cons, r_comp_cons, slen_app. pose proof (cdepth_tail l Hl). lia.
+  Qed.
+
+  Lemma gdepth_len : forall g, (gdepth g <= String.length (r_group g))%nat.
+  Proof.
+    induction g as [c es|l inner r c IH] using group_ind'; [simpl; lia|].
+    cbn [gdepth]. fold (cdepth inner). rewrite r_group_exp. rewrite !slen_app.
+    pose proof (cdepth_comp inner IH). simpl. lia.
+  Qed.
+
+  Lemma cdepth_len : forall l, (cdepth l <= String.length (r_comp l))%nat.
+  Proof. intro l. apply cdepth_comp. apply Forall_forall. intros p _. apply gdepth_len. Qed.
+
+  (* any fuel above the nesting depth gives the same result: in particular the fuel p_compound uses *)
+  Corollary comp_accept_fuel : forall l fuel rest, (cdepth l < fuel)%nat -> wf_comp T l = true -> stops rest ->
+    p_composite T fuel (r_comp l ++ rest) = POk (v_comp T l) rest.
+  Proof.
+    intros l [|f] rest Hd H Hst; [lia|]. apply comp_accept; [lia|assumption|assumption].
+  Qed.
+
+  (* ---------------------------------------------------------------- density tag and the whole string *)
+  Definition r_dens (o : option (string * string * option ascii)) : string :=
+    match o with
+    | Some (ws, t, m) => ws ++ "@" ++ t ++ (match m with Some ch => String ch "" | None => "" end)
+    | None => ""
+    end.
+
+  Lemma render_eq : forall t, render t = r_comp (c_comp t) ++ r_dens (c_density t).
+  Proof. reflexivity. Qed.
+
+  Lemma dens_stops : forall o, wf_dens o = true -> stops (r_dens o).
+  Proof.
+    intros [[[ws t] m]|] H; apply cf_stops; [|reflexivity].
+    simpl in H. apply andb_prop in H. destruct H as [H _]. apply andb_prop in H. destruct H as [Hws _].
+    unfold cf, r_dens. change (ws ++ "@" ++ t ++ _) with (ws ++ String "@" (t ++ match m with Some ch => String ch "" | None => "" end)).
+    rewrite skip_ws_blanks by (exact Hws || reflexivity). reflexivity.
+  Qed.
+
+  Lemma marker_nf_count : forall c, (Ascii.eqb c "n" || Ascii.eqb c "i")%bool = true -> nf_count c = true.
+  Proof. char_fact. Qed.
+
+  Lemma dens_ok : forall o, wf_dens o = true -> p_density (r_dens o) = POk (v_dens o) "".
+  Proof.
+    intros [[[ws t] m]|] H; [|reflexivity].
+    simpl in H. apply andb_prop in H. destruct H as [H Hm]. apply andb_prop in H. destruct H as [Hws Ht].
+    destruct (parse_dec_count t Ht) as (q & Hq).
+    unfold r_dens, p_density.
+    change (ws ++ "@" ++ t ++ match m with Some ch => String ch "" | None => "" end)
+      with (ws ++ String "@" (t ++ match m with Some ch => String ch "" | None => "" end)).
+    rewrite (lit_blanks "@" ws _ eq_refl Hws).
+    rewrite (p_number_ok t _ q Ht Hq).
+    - unfold v_dens. rewrite Hq. destruct m as [ch|]; [|reflexivity].
+      apply orb_prop in Hm. destruct Hm as [Hm|Hm]; apply Ascii.eqb_eq in Hm; subst ch; reflexivity.
+    - destruct m as [ch|]; [|reflexivity]. simpl. apply marker_nf_count. exact Hm.
+  Qed.
+
+  (* what may follow the whole compound: blanks, then the end of the text or a ')' *)
+  Definition rparen (c : ascii) : bool := Ascii.eqb c ")".
+  Definition tail_ok (rest : string) : bool := hdp rparen (skip_ws rest).
+
+  Lemma rparen_closer : forall c, rparen c = true -> closer c = true. Proof. char_fact. Qed.
+  Lemma rparen_not_at : forall c, rparen c = true -> negb (Ascii.eqb "@" c) = true. Proof. char_fact. Qed.
+  Lemma rparen_nf_count : forall c, rparen c = true -> nf_count c = true. Proof. char_fact. Qed.
+  Lemma pws_nf_count : forall c, is_pws c = true -> nf_count c = true. Proof. char_fact. Qed.
+
+  Lemma tail_ok_stops : forall rest, tail_ok rest = true -> stops rest.
+  Proof. intros rest H. apply cf_stops. exact (hdp_impl _ _ rparen_closer _ H). Qed.
+
+  Lemma tail_ok_nf_count : forall rest, tail_ok rest = true -> hdp nf_count rest = true.
+  Proof.
+    intros [|c r] H; [reflexivity|]. unfold tail_ok in H. simpl in *. destruct (is_pws c) eqn:E.
+    - apply pws_nf_count. exact E.
+    - simpl in H. apply rparen_nf_count. exact H.
+  Qed.
+
+  Lemma dens_stops_rest : forall o rest, wf_dens o = true -> tail_ok rest = true -> stops (r_dens o ++ rest).
+  Proof.
+    intros [[[ws t] m]|] rest H Hr; [|apply tail_ok_stops; exact Hr]. apply cf_stops.
+    simpl in H. apply andb_prop in H. destruct H as [H _]. apply andb_prop in H. destruct H as [Hws _].
+    unfold cf, r_dens. rewrite !sapp_assoc.
+    change (ws ++ "@" ++ t ++ _ ++ rest)
+      with (ws ++ String "@" (t ++ match m with Some ch => String ch "" | None => "" end ++ rest)).
+    rewrite skip_ws_blanks by (exact Hws || reflexivity). reflexivity.
+  Qed.
+
+  Lemma dens_ok_rest : forall o rest, wf_dens o = true -> tail_ok rest = true ->
+    p_density (r_dens o ++ rest) = POk (v_dens o) rest.
+  Proof.
+    intros [[[ws t] m]|] rest H Hr.
+    - simpl in H. apply andb_prop in H. destruct H as [H Hm]. apply andb_prop in H. destruct H as [Hws Ht].
+      destruct (parse_dec_count t Ht) as (q & Hq).
+      unfold r_dens, p_density. rewrite !sapp_assoc.
+      change (ws ++ "@" ++ t ++ match m with Some ch => String ch "" | None => "" end ++ rest)
+        with (ws ++ String "@" (t ++ match m with Some ch => String ch "" | None => "" end ++ rest)).
+      rewrite (lit_blanks "@" ws _ eq_refl Hws).
+      rewrite (p_number_ok t _ q Ht Hq).
+      + unfold v_dens. rewrite Hq. destruct m as [ch|].
+        * apply orb_prop in Hm. destruct Hm as [Hm|Hm]; apply Ascii.eqb_eq in Hm; subst ch; reflexivity.
+        * change ("" ++ rest) with rest. unfold tail_ok in Hr. destruct (skip_ws rest) as [|c r]; [reflexivity|].
+          simpl in Hr. apply Ascii.eqb_eq in Hr. subst c. reflexivity.
+      + destruct m as [ch|]; [simpl; apply marker_nf_count; exact Hm|]. apply tail_ok_nf_count. exact Hr.
+    - simpl. unfold p_density, lit. unfold tail_ok in Hr. destruct (skip_ws rest) as [|c r]; [reflexivity|].
+      simpl in Hr. pose proof (rparen_not_at c Hr) as Ha. apply negb_true in Ha. rewrite Ha. reflexivity.
+  Qed.
+
+  Theorem compound_accept_rest : forall t rest, wfb T t = true -> tail_ok rest = true ->
+    p_compound T (render t ++ rest) = POk (v_comp T (c_comp t), v_dens (c_density t)) rest.
+  Proof.
+    intros t rest H Hr. unfold wfb in H. apply andb_prop in H. destruct H as [Hc Hd].
+    unfold p_compound. rewrite render_eq, sapp_assoc.
+    rewrite (comp_accept (c_comp t) _ (r_dens (c_density t) ++ rest));
+      [| | exact Hc | apply dens_stops_rest; assumption].
+    - cbn [pbind]. rewrite (dens_ok_rest _ rest Hd Hr). reflexivity.
+    - pose proof (cdepth_len (c_comp t)). rewrite slen_app. lia.
+  Qed.
+
+  Theorem compound_accept : forall t, wfb T t = true ->
+    p_compound T (render t) = POk (v_comp T (c_comp t), v_dens (c_density t)) "".
+  Proof.
+    intros t H. rewrite <- (sapp_nil_r (render t)). apply compound_accept_rest; [exact H|reflexivity].
   Qed.
 End Accept.
